@@ -91,6 +91,17 @@ pub fn strategies(root: &Path, g: &Gen, opts: RunOpts, enumerate: bool) -> Vec<S
 }
 
 pub fn replay(v: &serde_json::Value) -> Result<(), String> {
+    if v.get("stress").is_some() {
+        let c: crate::stress::StressCase = serde_json::from_value(v["stress"].clone()).map_err(|e| e.to_string())?;
+        drop_privileges();
+        let scratch = Scratch::new("c05s");
+        for _ in 0..10 {
+            if let Some((s, d)) = crate::stress::run(&scratch.path, &c).error_violation {
+                return Err(format!("{}: {}", s, d));
+            }
+        }
+        return Ok(());
+    }
     let c: ConcCase = serde_json::from_value(v["case"].clone()).map_err(|e| e.to_string())?;
     drop_privileges();
     let scratch = Scratch::new("c05r");
@@ -149,5 +160,6 @@ pub fn run(ctx: &Ctx) -> Report {
             rep.violation(&sig, detail, json!({"case": case}));
         }
     }
+    crate::stress::phase(ctx, "C05", &mut rep);
     rep
 }
